@@ -31,6 +31,13 @@ static const char* verif_lit(int id, const char*)
     return (const char*)&littab[id];
 }
 namespace std {
+/* std::string_view over a literal */
+struct string_view
+{
+    strrec r;
+    string_view(const char* p) { r = *rec_of(p); }
+    size_t size() const { return r.tag == VS_LIT && r.a == LIT_ONE_AND ? 5 : 8; }
+};
 /* a string is its origin-tagged value; c_str() points at the value (valid while the string object lives, as in C++) */
 class string
 {
@@ -49,6 +56,21 @@ public:
             if (r.flags & F_ONE_AND_INSIDE) return 3;
         }
         return npos;
+    }
+    size_t find(const string_view& v) const
+    {
+        if (v.r.tag == VS_LIT && v.r.a == LIT_ONE_AND) {
+            if (r.flags & F_ONE_AND_PREFIX) return 0;
+            if (r.flags & F_ONE_AND_INSIDE) return 3;
+        }
+        return npos;
+    }
+    /* erase(0, 5): drop the first five characters */
+    string& erase(size_t pos, size_t n)
+    {
+        if (pos == 0 && n == 5 && r.tag == VS_EXPR) { r.tag = VS_EXPR_TAIL; r.flags = 0; }
+        else { r.tag = VS_OTHER; r.flags = 0; }
+        return *this;
     }
     string substr(size_t from, size_t n) const
     {
